@@ -363,6 +363,15 @@ func (b *sourcePathsBuilder) remapDescriptor(
 			return nil, false, err
 		}
 		isDirty = isDirty || changed
+		// The index that each oneof will have once the excluded oneofs are removed.
+		newOneofIndexes := make([]int32, len(descriptor.OneofDecl))
+		oneofsRemoved := int32(0)
+		for oneofIndex, oneof := range descriptor.OneofDecl {
+			newOneofIndexes[oneofIndex] = int32(oneofIndex) - oneofsRemoved
+			if mode, ok := b.closure.elements[oneof]; ok && mode == inclusionModeExcluded {
+				oneofsRemoved++
+			}
+		}
 		newOneofs, changed, err := remapSlice(sourcePathsRemap, append(sourcePath, messageOneofsTag), descriptor.OneofDecl, b.remapOneof, b.options)
 		if err != nil {
 			return nil, false, err
@@ -372,6 +381,19 @@ func (b *sourcePathsBuilder) remapDescriptor(
 			newDescriptor = maybeClone(descriptor, b.options)
 			newDescriptor.Field = newFields
 			newDescriptor.OneofDecl = newOneofs
+		}
+		if oneofsRemoved > 0 {
+			// Oneofs were removed: renumber the oneof indexes of the remaining fields.
+			if !b.options.mutateInPlace {
+				newDescriptor.Field = slices.Clone(newFields)
+			}
+			for i, field := range newDescriptor.Field {
+				if field.OneofIndex != nil && newOneofIndexes[field.GetOneofIndex()] != field.GetOneofIndex() {
+					field = maybeClone(field, b.options)
+					field.OneofIndex = proto.Int32(newOneofIndexes[field.GetOneofIndex()])
+					newDescriptor.Field[i] = field
+				}
+			}
 		}
 	}
 	newExtensions, changed, err := remapSlice(sourcePathsRemap, append(sourcePath, messageExtensionsTag), descriptor.GetExtension(), b.remapField, b.options)
